@@ -1374,3 +1374,389 @@ func ruleIDXLEN(w *World, r *Report, pkgs ...string) {
 	}
 	r.stat("idxlen_sites", n)
 }
+
+// ---------------------------------------------------------------------------
+// ROLLSCAN: the byte-by-byte search and its rolling checksum stay in step
+
+const ruleROLLSCANText = "the search advances one byte on a miss and one slice on a hit, and the rolling checksum is only ever rolled by one byte: in par2.fillShardInfos (R1) the slice looked up is sliceAndPadByteArray(data, j, j+sliceByteCount) for the scan position j; (R2) the position's next value is j+1 where the lookup was empty and j+sliceByteCount where it was not, nothing else; (R3) a checksum obtained from crc32Window.update is used only in an iteration that follows a miss (the flag that selects it can be true only on the back-edges that advance by one; it is false at entry and after a hit), is computed from the previous iteration's checksum, the byte that left the window (data[j-1]) and the last byte of the current padded slice, with a window made for sliceByteCount; every other iteration computes crc32.ChecksumIEEE of the same slice; (R4) the checksum handed to the lookup is the one computed for the slice handed to it"
+
+func ruleROLLSCAN(w *World, r *Report) {
+	r.rule("ROLLSCAN", ruleROLLSCANText)
+	fn := w.Fn("par2.fillShardInfos")
+	if fn == nil || len(fn.Params) < 2 {
+		r.unk("ROLLSCAN", "fillShardInfos", "", "function not found")
+		return
+	}
+	sliceSize, data := ssa.Value(fn.Params[0]), ssa.Value(fn.Params[1])
+	var get *ssa.Call
+	nget := 0
+	for _, c := range callInstrs(fn) {
+		if cc, ok := c.(*ssa.Call); ok && staticCalleeShort(c.Common()) == "(par2.checksumShardLocationMap).get" && len(c.Common().Args) == 3 {
+			get = cc
+			nget++
+		}
+	}
+	r.floor("ROLLSCAN", "checksum lookups in fillShardInfos", nget, 1)
+	if nget != 1 {
+		if nget > 1 {
+			r.unk("ROLLSCAN", "fillShardInfos:lookup", w.pos(fn.Pos()), "more than one lookup in the scan")
+		}
+		return
+	}
+	var scan *natLoop
+	for _, l := range naturalLoops(fn) {
+		if l.body[get.Block()] && (scan == nil || len(l.body) > len(scan.body)) {
+			scan = l
+		}
+	}
+	if scan == nil {
+		r.bad("ROLLSCAN", "fillShardInfos:R1", w.ipos(get), "the lookup is not inside a scan loop")
+		return
+	}
+	// R1: the slice
+	sl, ok := stripAllConv(get.Call.Args[2]).(*ssa.Call)
+	if !ok || staticCalleeShort(&sl.Call) != "par2.sliceAndPadByteArray" || len(sl.Call.Args) != 3 {
+		r.unk("ROLLSCAN", "fillShardInfos:R1", w.ipos(get), "the slice looked up is not a result of sliceAndPadByteArray")
+		return
+	}
+	J, _ := stripAllConv(sl.Call.Args[1]).(*ssa.Phi)
+	if J == nil || J.Block() != scan.head || stripAllConv(sl.Call.Args[0]) != data {
+		r.bad("ROLLSCAN", "fillShardInfos:R1", w.ipos(sl), "the slice looked up does not start at the scan position of the data")
+		return
+	}
+	wantEnd := linOf(w, J, 0)
+	wantEnd.add(linOf(w, sliceSize, 0), 1)
+	if linOf(w, sl.Call.Args[2], 0).equal(wantEnd) {
+		r.ok("ROLLSCAN", "fillShardInfos:R1", w.ipos(sl), "the slice looked up is data[j : j+sliceByteCount], padded")
+	} else {
+		r.bad("ROLLSCAN", "fillShardInfos:R1", w.ipos(sl), "the slice looked up is not sliceByteCount bytes from the scan position")
+	}
+	// R2: the steps
+	isMissFact := func(b *ssa.BasicBlock, empty bool) bool {
+		for _, cm := range cmpsAt(b) {
+			if cm.Y == nil {
+				continue
+			}
+			x, y, op := cm.X, cm.Y, cm.Op
+			if isBuiltinCall(stripAllConv(y), "len") != nil {
+				x, y, op = y, x, swapOp(op)
+			}
+			lc := isBuiltinCall(stripAllConv(x), "len")
+			k, isC := constInt(y)
+			if lc == nil || !isC || stripAllConv(lc.Call.Args[0]) != ssa.Value(get) {
+				continue
+			}
+			if empty && ((op == token.EQL && k == 0) || (op == token.LEQ && k == 0) || (op == token.LSS && k == 1)) {
+				return true
+			}
+			if !empty && ((op == token.NEQ && k == 0) || (op == token.GTR && k == 0) || (op == token.GEQ && k == 1)) {
+				return true
+			}
+		}
+		return false
+	}
+	one := linOf(w, J, 0)
+	one.c++
+	stepBad := ""
+	oneEdges := map[int]bool{}
+	nback := 0
+	for i, e := range J.Edges {
+		pred := J.Block().Preds[i]
+		if !scan.body[pred] {
+			if c, ok := constInt(stripAllConv(e)); !ok || c != 0 {
+				stepBad = "the scan does not start at offset 0"
+			}
+			continue
+		}
+		nback++
+		le := linOf(w, e, 0)
+		switch {
+		case le.equal(one):
+			oneEdges[i] = true
+			if !isMissFact(pred, true) {
+				stepBad = "the position advances by one byte on a path where the lookup is not known to have been empty (" + w.ipos(pred.Instrs[len(pred.Instrs)-1]) + ")"
+			}
+		case le.equal(wantEnd):
+			if !isMissFact(pred, false) {
+				stepBad = "the position advances by a whole slice on a path where the lookup is not known to have found the slice (" + w.ipos(pred.Instrs[len(pred.Instrs)-1]) + "): offsets are skipped after a miss"
+			}
+		default:
+			stepBad = "the position advances by something other than one byte or one slice (" + w.ipos(pred.Instrs[len(pred.Instrs)-1]) + ")"
+		}
+	}
+	if nback == 0 {
+		stepBad = "the scan position never advances"
+	}
+	if stepBad == "" {
+		r.ok("ROLLSCAN", "fillShardInfos:R2", w.ipos(get), "j+1 after an empty lookup, j+sliceByteCount after a hit, start at 0")
+	} else {
+		r.bad("ROLLSCAN", "fillShardInfos:R2", w.ipos(get), stepBad)
+	}
+	// R3/R4: the checksum
+	var leaves []ssa.Value
+	var collect func(v ssa.Value, depth int)
+	seen := map[ssa.Value]bool{}
+	collect = func(v ssa.Value, depth int) {
+		v = stripAllConv(v)
+		if seen[v] || depth > 6 {
+			return
+		}
+		seen[v] = true
+		if p, ok := v.(*ssa.Phi); ok && (p.Parent() != fn || (scan.body[p.Block()] && p.Block() != scan.head)) {
+			for _, e := range p.Edges {
+				collect(e, depth+1)
+			}
+			return
+		}
+		// a private helper that computes the checksum: its return values
+		if c, ok := v.(*ssa.Call); ok {
+			if g := c.Call.StaticCallee(); g != nil && g != fn && inRegion(fn, g) && len(g.Blocks) > 0 && w.uniqueSite(g) != nil && g.Signature.Results().Len() == 1 {
+				for _, gb := range g.Blocks {
+					if ret, ok := gb.Instrs[len(gb.Instrs)-1].(*ssa.Return); ok && len(ret.Results) == 1 {
+						collect(ret.Results[0], depth+1)
+					}
+				}
+				return
+			}
+		}
+		leaves = append(leaves, v)
+	}
+	collect(get.Call.Args[1], 0)
+	nroll := 0
+	for li, lv := range leaves {
+		key := fmt.Sprintf("fillShardInfos:R3:checksum#%d", li)
+		c, ok := lv.(*ssa.Call)
+		if !ok {
+			r.bad("ROLLSCAN", key, w.ipos(get), "the checksum handed to the lookup is not computed in this iteration (it is "+describeVal(lv)+")")
+			continue
+		}
+		switch calleeName(&c.Call) {
+		case "hash/crc32.ChecksumIEEE":
+			if len(c.Call.Args) == 1 && stripAllConv(upTo(w, fn, c.Call.Args[0])) == ssa.Value(sl) {
+				r.ok("ROLLSCAN", key, w.ipos(c), "crc32.ChecksumIEEE of the slice looked up")
+			} else {
+				r.bad("ROLLSCAN", key, w.ipos(c), "the full checksum is computed over something else than the slice looked up")
+			}
+			continue
+		}
+		if staticCalleeShort(&c.Call) != "(*par2.crc32Window).update" || len(c.Call.Args) != 4 {
+			r.unk("ROLLSCAN", key, w.ipos(c), "checksum source not recognised")
+			continue
+		}
+		nroll++
+		why := ""
+		// the window
+		if wc, ok := stripAllConv(resolveSingle(upTo(w, fn, c.Call.Args[0]))).(*ssa.Call); !ok || staticCalleeShort(&wc.Call) != "par2.newCRC32Window" || len(wc.Call.Args) != 1 || stripAllConv(wc.Call.Args[0]) != sliceSize {
+			why = "the window is not made for sliceByteCount"
+		}
+		// previous checksum: a phi at the loop head that carries the looked-up checksum over every back-edge
+		if prev, ok := stripAllConv(upTo(w, fn, c.Call.Args[1])).(*ssa.Phi); !ok || prev.Block() != scan.head {
+			why = "the checksum rolled is not the one carried over from the previous iteration"
+		} else {
+			for i, e := range prev.Edges {
+				if scan.body[prev.Block().Preds[i]] && stripAllConv(e) != stripAllConv(get.Call.Args[1]) {
+					why = "the checksum carried into the next iteration is not the one of the window just looked up"
+				}
+			}
+		}
+		// the byte that left the window: data[j-1]
+		okOld := false
+		if ld, ok := stripAllConv(c.Call.Args[2]).(*ssa.UnOp); ok && ld.Op == token.MUL {
+			if ia, ok := ld.X.(*ssa.IndexAddr); ok && stripAllConv(upTo(w, fn, ia.X)) == data {
+				want := linOf(w, J, 0)
+				want.c--
+				okOld = linOf(w, ia.Index, 0).equal(want)
+			}
+		}
+		if !okOld {
+			why = "the byte rolled out is not data[j-1]"
+		}
+		// the byte that entered: the last byte of the padded slice
+		okNew := false
+		if ld, ok := stripAllConv(c.Call.Args[3]).(*ssa.UnOp); ok && ld.Op == token.MUL {
+			if ia, ok := ld.X.(*ssa.IndexAddr); ok && stripAllConv(upTo(w, fn, ia.X)) == ssa.Value(sl) {
+				l := linOf(w, ia.Index, 0)
+				if l.c == -1 && len(l.coef) == 1 {
+					for a, k := range l.coef {
+						if ln := isBuiltinCall(l.val[a], "len"); k == 1 && ln != nil && stripAllConv(upTo(w, fn, ln.Call.Args[0])) == ssa.Value(sl) {
+							okNew = true
+						}
+					}
+				}
+			}
+		}
+		if !okNew {
+			why = "the byte rolled in is not the last byte of the current padded slice"
+		}
+		// executed only after a miss at j-1: a flag phi at the loop head, true exactly on the +1 edges
+		flagOK := false
+		for _, cm := range w.factsAt(c) {
+			if cm.Op != token.NEQ || cm.Y != nil {
+				continue
+			}
+			fp, ok := stripAllConv(upTo(w, fn, cm.X)).(*ssa.Phi)
+			if !ok || fp.Block() != scan.head {
+				continue
+			}
+			good := true
+			for i, e := range fp.Edges {
+				// the phis of one block share predecessor order. After a one-byte advance the
+				// flag may be anything (computing the full checksum is always right); everywhere
+				// else it must be the constant false
+				if scan.body[fp.Block().Preds[i]] && oneEdges[i] {
+					continue
+				}
+				if bv, isC := constBool(e); !isC || bv {
+					good = false
+				}
+			}
+			if good {
+				flagOK = true
+			}
+		}
+		if !flagOK {
+			why = "the rolled checksum is used in an iteration that does not follow a one-byte advance (the flag guarding it can be true at entry or after a hit): after a hit, or at the start, the previous checksum belongs to another window"
+		}
+		if why == "" {
+			r.ok("ROLLSCAN", key, w.ipos(c), "rolled by one byte from the previous window's checksum, only after a miss")
+		} else {
+			r.bad("ROLLSCAN", key, w.ipos(c), why)
+		}
+	}
+	r.stat("rollscan_rolling_updates", nroll)
+}
+
+// ---------------------------------------------------------------------------
+// WINTAB: the rolling-checksum table has an entry for every byte value
+
+const ruleWINTABText = "the table the rolling checksum reads is complete: in par2.newCRC32Window the 256-entry table indexed by the byte that leaves the window is written at every index 0..255 (constant indices, and loops whose index starts at a constant, steps by one and runs to a constant bound), it is the table stored in the window that is returned, and the window size argument is what sizes the probe buffer (windowSize+1 bytes)"
+
+func ruleWINTAB(w *World, r *Report) {
+	r.rule("WINTAB", ruleWINTABText)
+	fn := w.Fn("par2.newCRC32Window")
+	if fn == nil || len(fn.Params) != 1 {
+		r.unk("WINTAB", "newCRC32Window", "", "function not found")
+		return
+	}
+	n := 0
+	for _, b := range fn.Blocks {
+		for _, in := range b.Instrs {
+			al, ok := in.(*ssa.Alloc)
+			if !ok {
+				continue
+			}
+			alen, isArr := arrayLenOf(al.Type())
+			if !isArr || alen != 256 {
+				continue
+			}
+			n++
+			key := fmt.Sprintf("newCRC32Window:table#%d", n-1)
+			covered := make([]bool, 256)
+			undecided := ""
+			for _, ref := range referrersOf(al) {
+				ia, ok := ref.(*ssa.IndexAddr)
+				if !ok {
+					continue
+				}
+				stored := false
+				for _, r2 := range referrersOf(ia) {
+					if st, ok := r2.(*ssa.Store); ok && st.Addr == ssa.Value(ia) {
+						stored = true
+					}
+				}
+				if !stored {
+					continue
+				}
+				if c, ok := constInt(stripAllConv(ia.Index)); ok {
+					if c >= 0 && c < 256 {
+						covered[c] = true
+					}
+					continue
+				}
+				// loop index: phi(init const, phi+1) with exit i >= bound const; the store dominates the back-edge
+				p, ok := stripAllConv(ia.Index).(*ssa.Phi)
+				if !ok || len(p.Edges) != 2 {
+					undecided = w.ipos(ia)
+					continue
+				}
+				var init, bound int64 = -1, -1
+				stepOK := false
+				for i, e := range p.Edges {
+					pred := p.Block().Preds[i]
+					if c, ok := constInt(stripAllConv(e)); ok && !p.Block().Dominates(pred) {
+						init = c
+						continue
+					}
+					d := linOf(w, e, 0)
+					d.add(linOf(w, p, 0), -1)
+					if len(d.coef) == 0 && d.c == 1 && ia.Block().Dominates(pred) {
+						stepOK = true
+					}
+				}
+				if iff, ok := p.Block().Instrs[len(p.Block().Instrs)-1].(*ssa.If); ok {
+					for _, cm := range factCmps(Fact{iff.Cond, true, iff}) {
+						if cm.Y == nil || stripAllConv(cm.X) != ssa.Value(p) {
+							continue
+						}
+						if k, ok := constInt(cm.Y); ok {
+							if cm.Op == token.LSS {
+								bound = k
+							} else if cm.Op == token.LEQ {
+								bound = k + 1
+							}
+						}
+					}
+				}
+				if init < 0 || bound < 0 || !stepOK {
+					undecided = w.ipos(ia)
+					continue
+				}
+				for i := init; i < bound && i < 256; i++ {
+					covered[i] = true
+				}
+			}
+			missing := -1
+			for i, c := range covered {
+				if !c {
+					missing = i
+					break
+				}
+			}
+			switch {
+			case missing < 0:
+				r.ok("WINTAB", key, w.ipos(al), "written at every index 0..255")
+			case undecided != "":
+				r.unk("WINTAB", key, undecided, "a store into the table has an index that is neither a constant nor a simple counting loop")
+			default:
+				r.bad("WINTAB", key, w.ipos(al), fmt.Sprintf("entry %d of the table is never written: a window whose leaving byte has that value rolls to a wrong checksum, and the slice behind it is not found", missing))
+			}
+		}
+	}
+	r.floor("WINTAB", "256-entry tables in newCRC32Window", n, 1)
+}
+
+// upTo is upAll that does not leave fn: a parameter of fn itself stays what it is.
+func upTo(w *World, fn *ssa.Function, v ssa.Value) ssa.Value {
+	for i := 0; i < 8; i++ {
+		v = stripAllConv(resolveSingle(v))
+		p, ok := v.(*ssa.Parameter)
+		if !ok || p.Parent() == fn {
+			return v
+		}
+		site := w.uniqueSite(p.Parent())
+		if site == nil {
+			return v
+		}
+		idx := -1
+		for j, q := range p.Parent().Params {
+			if q == p {
+				idx = j
+			}
+		}
+		if idx < 0 || idx >= len(site.Common().Args) {
+			return v
+		}
+		v = site.Common().Args[idx]
+	}
+	return v
+}
